@@ -464,6 +464,74 @@ def jwe_stream_producer(ctx, dist):
     return len(req) + len(dreq) + nmodel
 
 
+def after_failure(ctx, dist):
+    """what a multiplexer does AFTER one of its branches has failed (the ordinary chain cases stop at the first refused
+    feed): every further chunk is fed and done() is called all the same.  A multiplexer that needs all branches -- or has
+    only one -- refuses everything from then on and its done() fails; one that needs any goes on with the others; the failed
+    branch receives NOTHING further (its sink holds exactly what it had accepted).  Implementation only."""
+    rep = ctx["rep"]
+    rnd = random.Random(ctx["seed"] + 21)
+    h = os.path.join(ctx["bdir"], "h")
+    data = b"abcdefghijkl"
+    chunkings = [[3, 2, 1, 1, 1], [6, 1, 1], [1] * 8, [4, 1, 1, 1], [2, 2, 2, 2], [5, 0, 1, 2], [12], [3, 9], [0, 5, 1]]
+    sinks = ["buffer:4", "buffer:0", "faulty:1:0", "faulty:0:0", "faulty:2:0"]
+
+    def fail_at(sink, chunks):
+        """index of the feed the sink refuses (None: it refuses none), and what it holds then"""
+        if sink.startswith("buffer:"):
+            cap, have = int(sink.split(":")[1]), 0
+            for i, c in enumerate(chunks):
+                if c > cap - have:
+                    return i, have
+                have += c
+            return None, have
+        k = int(sink.split(":")[1])
+        if k < len(chunks):
+            return k, sum(chunks[:k])
+        return None, sum(chunks)
+    shapes = {"plexall(%s)": "solo", "plexany(%s)": "solo", "plexall(%s,malloc)": "all", "plexall(malloc,%s)": "all", "plexany(%s,malloc)": "any",
+              "plexany(malloc,%s)": "any", "plexall(plexany(%s))": "solo", "plexany(plexall(%s),malloc)": "any", "b64enc(plexall(%s))": None}
+    cases, meta = [], []
+    for sh, mode in shapes.items():
+        if mode is None:
+            continue
+        for sk in sinks:
+            for ch in chunkings:
+                cases.append("chainx\t%s\t%s\t%s" % (sh % sk, ",".join(map(str, ch)), hx(data[:sum(ch)])))
+                meta.append((sh, mode, sk, ch))
+    outs = vlib.run_cases(h, cases)
+    for c, o, (sh, mode, sk, ch) in zip(cases, outs, meta):
+        if o.startswith("CRASH") or o.startswith("BUILD"):
+            rep.violation("after-failure:crash", "crash / build failure: " + o[:160], {"case": c})
+            continue
+        f = o.split(" ")
+        verd, done = f[0], f[1]
+        sinks_out = f[2:]
+        pos = [i for i, x in enumerate(sh.replace("%s", "S").replace("malloc", "M")) if x in "SM"]
+        order = [x for x in sh.replace("%s", "S").replace("malloc", "M") if x in "SM"]
+        s_hex = sinks_out[order.index("S")] if len(sinks_out) == len(order) else None
+        i, held = fail_at(sk, ch)
+        d = data[:sum(ch)]
+        if i is None:
+            want_v, want_d = "T" * len(ch), "T"
+        elif mode in ("solo", "all"):
+            want_v, want_d = "T" * i + "F" * (len(ch) - i), "F"
+        else:
+            want_v, want_d = "T" * len(ch), "T"
+        if verd != want_v or done != want_d:
+            rep.violation("after-failure:verdicts:%s:%s" % (mode, sk.split(":")[0]),
+                          "%s fed %s: feeds answered %s and done %s where %s / %s is due (branch %s refuses feed %s)" % (sh % sk, ch, verd, done, want_v, want_d, sk, i),
+                          {"case": c, "implementation": o[:300]})
+        elif s_hex is not None and i is not None and unhx(s_hex.replace("OVERFLOW:", "")) != d[:held]:
+            rep.violation("after-failure:failed-branch-fed-again:%s:%s" % (mode, sk.split(":")[0]),
+                          "%s fed %s: the branch %s refused feed %d but its sink holds %r afterwards instead of %r: a failed branch must receive no further data" % (sh % sk, ch, sk, i, unhx(s_hex.replace("OVERFLOW:", "")), d[:held]),
+                          {"case": c, "implementation": o[:300]})
+        elif mode == "any" and len(sinks_out) == len(order) and unhx(sinks_out[order.index("M")]) != d:
+            rep.violation("after-failure:surviving-branch-starved", "%s fed %s: the surviving branch did not receive all the data" % (sh % sk, ch), {"case": c, "implementation": o[:300]})
+    dist["multiplexers fed on after a branch failure (chainx)"] = len(cases)
+    return len(cases)
+
+
 def nontrivial(case, out):
     f = case.split("\t")
     return f[3] != "-" and f[2] != "-"
@@ -487,6 +555,7 @@ def correspond(ctx):
     dist["multiplexer branches also run on their own"] = len(alone)
     ncomp = compression_stages(ctx, dist)
     ncomp += jwe_stream_producer(ctx, dist)
+    ncomp += after_failure(ctx, dist)
     st = runner.standard(
         ctx, cases, Oracle(), nontrivial,
         rule="chain shapes from the public constructors (+ a harness fault-injecting sink) x data x compositions of the length into feed sizes; non-trivial = non-empty data and at least one feed; distinct = distinct case lines",
